@@ -13,6 +13,11 @@ C = dict(
         # the same classes with a name mapping in force that covers / does not cover the message's object
         dict(name="map", module="WriterReq", cfg="WriterReq_PlanMapQ.cfg", tiers=["quick"], workers=4),
         dict(name="mapT", module="WriterReq", cfg="WriterReq_PlanMapT.cfg", tiers=["thorough"], workers=8),
+        # the classes that consult the create / drop records (parent object, list members) with the drop of a SIBLING object handled
+        # by the same writer before the op - names from an adversarial universe (names containing '_', the sibling's name followed
+        # by '_' starting the object's name or the other way round) - and / or with drop records made by the writer itself
+        dict(name="sibs", module="WriterReq", cfg="WriterReq_PlanSibQ.cfg", tiers=["quick"], workers=4),
+        dict(name="sibsT", module="WriterReq", cfg="WriterReq_PlanSibT.cfg", tiers=["thorough"], workers=8),
     ],
     directed="plans/C20.jsonl",
     trace=("WriterReq_Trace", "WriterReq_Trace.cfg"),
@@ -23,6 +28,9 @@ C = dict(
          "of the operate requests, plus 4 malformed pack shapes), each replayed with 3 (quick) / 150 (thorough) rapid-drawn "
          "contents; and the same classes (lists up to length 2) under a task name mapping that covers / does not cover the "
          "message's object, 3 / 60 contents each (covering shape collection-level / whole-database / both = sample index mod 3); "
+         "and the record-consulting classes (lists up to 2 / 3 members) preceded, on the same writer, by the drop of a sibling database / "
+         "collection / list member whose name is prefix-related to the object's (names containing '_'; 2 / 40 contents each), with "
+         "drop records seeded at start-up or made by drops the writer handled itself; "
          "a trace is non-trivial if at least one downstream request was observed; distinct = distinct event sequences",
     assumptions=[
         "observation point is the api.DataHandler interface (recording fake, deep copies); the real MilvusDataHandler / gRPC "
@@ -37,6 +45,9 @@ C = dict(
         "business - here the database / collection groups accept the image of the source name under any matching entry (the "
         "source name when none matches) and the object of a privilege may be named by the source or by its image; every other "
         "identity group, the request kind and the operation type (grant / revoke) are judged the same under every mapping",
+        "sibling classes: every name of the step may contain '_', first segments are distinct, so no two record keys of a step are "
+        "EQUAL (exact key clashes are the recorded limitation C15_KEYCLASH); the sibling's drop is stamped after every drop record "
+        "of the step or (database / collection siblings) before the op; the prelude drops themselves must each become one request",
         "API events are built exactly as replicate_channel_manager.go builds them (MsgTimestamp = CreateTime / "
         "PartitionCreatedTimestamp / barrier ts, IsReplicate set); the reader itself is not driven",
         "stamp accepted if it equals the pack's end-position timestamp or the message's own timestamp",
@@ -53,4 +64,9 @@ def run(tier, replay=None):
         if "ContractHolds" not in r.violated:
             raise vlib.Inconclusive("WriterReq_MapLossy.cfg no longer violates ContractHolds: the name-mapping classes are vacuous")
         vlib.log("[tlc] WriterReq/WriterReq_MapLossy.cfg: violates ContractHolds as expected")
+        # negative control: drop records garbage-collected by key prefix when a sibling with a prefix-related name is dropped
+        r = vlib.run_tlc("WriterReq", "WriterReq_GcPrefix.cfg", workers=4, timeout=300)
+        if "ContractHolds" not in r.violated:
+            raise vlib.Inconclusive("WriterReq_GcPrefix.cfg no longer violates ContractHolds: the sibling-drop classes are vacuous")
+        vlib.log("[tlc] WriterReq/WriterReq_GcPrefix.cfg: violates ContractHolds as expected")
     return flow.standard_flow(C, tier, replay)
